@@ -136,8 +136,20 @@ def check_vector(env, mod, root, vec, g, checks, res):
 
 
 def check_decode(env, mod, root, t, value, g, vec, order, data, res):
+    # every other decode goes into a message that already holds ANOTHER value of the schema (the previous
+    # vector's): decoding replaces the whole value, whatever the target held
+    populated = (res["n_vec"] + (order == ">")) % 2 == 1
+    prev = g.get("_prev_value")
+    if order == ">":
+        g["_prev_value"] = value
     try:
         fresh = P.new_message(env, mod, root)
+        if prev is not None and prev != value and populated:
+            try:
+                P.fill(env, fresh, t, prev)
+                res["n_checked"]["dec_into_populated"] = res["n_checked"].get("dec_into_populated", 0) + 1
+            except Exception:  # noqa  (the encode leg reports values the API refuses)
+                fresh = P.new_message(env, mod, root)
         n = fresh.decode(data, order)
     except Exception as e:
         _fail(res, "dec", env, g, vec, "decode(%s, %r) of a canonical encoding raised %s"
